@@ -10,11 +10,12 @@ import numpy as np
 from vf import core
 from vf.core import CorrResult, Disagreement, Failure, coq_z, coq_list, coq_string, coq_bool
 from translator import pseudo as tr
+from translator import makers as trm
 
 ID = "C04"
 PROPS = "props/C04.v"
-GENERATED = [tr.OUT]
-CASE_DEPS = ["model/Lang.vo"]
+GENERATED = [tr.OUT, trm.OUT]
+CASE_DEPS = ["model/Lang.vo", "model/Makers.vo"]
 ALLOWED_AXIOMS = {
     "sig_forall_dec", "sig_not_dec", "functional_extensionality_dep", "classic",
     "ClassicalDedekindReals.sig_forall_dec", "ClassicalDedekindReals.sig_not_dec",
@@ -27,6 +28,10 @@ TRUSTED = [
     "the tree) and Python's ast module (xtring -> tree)",
     "character-level regular expressions, the parsimonious PEG grammars and Jinja are glue: exercised by the "
     "correspondence, not modelled",
+    "translator/makers.py (statement shapes of makers.make_function / remake_function / _prepare_globals, "
+    "aldi.adaptations.add_function_adaptations_to_context, PlainEquator._create_function; module-level state of makers.py "
+    "and adaptations.py enumerated, anything new fails closed -> gen/MakersGen.v); Python's exec and function objects are a "
+    "black box of model/Makers.v (Section variable exec_def)",
 ]
 ASSUMPTIONS = [
     "pseudofunction arguments have at most one level of parentheses, no commas, no nested pseudofunctions and no "
@@ -98,7 +103,14 @@ KW_SPELL = {
 
 
 def translate(ctx):
-    tr.run()
+    errors = []
+    for t in (tr, trm):
+        try:
+            t.run()
+        except core.TranslatorError as e:
+            errors.append(str(e))
+    if errors:
+        raise core.TranslatorError(" | ".join(errors))
 
 
 # =====================================================================================
@@ -1780,6 +1792,158 @@ def model_stats(model, dist):
     walk(model["nodes"], 0)
 
 
+# ------------------------------------------------------------------ makers sessions (model/Makers.v)
+MK_NAMES = ["__equator", "__simulate_level", "__simulate_residual", "fn_1"]
+MK_ARGS = [["x", "t"], ["x"], ["x", "t", "lhs"], []]
+MK_EXPRS = ["(f(x[(0, t)]) + g(x[(1, t-1)]) , )", "(-(x[(0, t)])+cf1(x[(1, t)]) , )", "log(x) + f(x)", "(h(1) , g(2) , )",
+            "(-(x[(0, t)])+x[(0, t-1)]**2  ,  -(x[(1, t)])+cf2(x[(0, t)], 3) , )", "0"]
+MK_KEYS = ["f", "g", "h", "cf1", "cf2", "log", "maximum", "__builtins__", "sqrt", "beta", "np"]
+
+
+class _Obj:
+    """an object a context holds (a user function, a value): only its identity matters"""
+    def __init__(self, tag):
+        self.tag = tag
+
+    def __call__(self, *a):
+        return self.tag
+
+
+def gen_makers_session(r):
+    """[(func_name, args, expression, [(key, tag)] | None)]: few texts and few keys, so that requests of a session share
+    their text and/or their context keys while the objects differ"""
+    n = r.choice([2, 3, 3, 4, 5, 6])
+    exprs = r.sample(MK_EXPRS, r.choice([1, 2, 2, 3]))
+    names = r.sample(MK_NAMES, r.choice([1, 1, 2]))
+    args = r.choice(MK_ARGS)
+    out, tag = [], 0
+    shared = None
+    for _ in range(n):
+        q = r.random()
+        if q < 0.08:
+            cx = None
+        elif q < 0.14:
+            cx = []
+        elif q < 0.3 and shared is not None:
+            cx = list(shared)               # the very same objects under the same keys
+        else:
+            cx = []
+            for k in r.sample(MK_KEYS, r.randint(1, 4)):
+                tag += 1
+                cx.append((k, f"<obj {tag}>"))
+            shared = cx
+        out.append((r.choice(names), list(args) if r.random() < 0.85 else r.choice(MK_ARGS), r.choice(exprs), cx))
+    return out
+
+
+def run_makers_session(sess):
+    """the implementation on the session, observed AFTER the whole session: per call the text, the entries of the
+    returned globals and of the globals of the returned function (objects named by their tags); then remake_function"""
+    import irispie.makers as mk
+    import irispie.aldi.adaptations as ad
+    objs = {}
+
+    def ctx_of(cx):
+        if cx is None:
+            return None
+        return {k: objs.setdefault(t, _Obj(t)) for k, t in cx}
+    ctxs = [ctx_of(cx) for _n, _a, _e, cx in sess]
+    results = []
+    for (name, args, expr, _cx), c in zip(sess, ctxs):
+        try:
+            results.append(mk.make_function(name, tuple(args), expr, c))
+        except Exception as e:  # noqa
+            return {"err": f"make_function raises {type(e).__name__}: {e}"[:200]}
+
+    def items(d, func, skip=None):
+        out = []
+        for k, v in d.items():
+            if k == skip:
+                continue
+            if isinstance(v, _Obj):
+                out.append((k, v.tag))
+            elif v is func:
+                out.append((k, f"<function {func.__name__}>"))
+            elif callable(v) and getattr(ad, k, None) is v:
+                out.append((k, "adapt:" + k))
+            elif isinstance(v, dict) and not v:
+                out.append((k, "{}"))
+            else:
+                out.append((k, f"<unknown {type(v).__name__}>"))
+        return out
+    obs, obs_remake, unchanged = [], [], True
+    for (name, args, expr, cx), c, (func, func_str, globals_) in zip(sess, ctxs, results):
+        obs.append((func_str, items(globals_, func), items(func.__globals__, func, skip=name)))
+        f2 = mk.remake_function(name, func_str, c)
+        obs_remake.append((func_str, items(globals_, func), items(f2.__globals__, f2, skip=name)))
+        if c is not None and [(k, v.tag) for k, v in c.items()] != list(cx):
+            unchanged = False
+    return {"make": obs, "remake": obs_remake, "context_unchanged": unchanged}
+
+
+def _cq_alist(l):
+    return "[" + "; ".join(f"({coq_string(k)}, {coq_string(v)})" for k, v in l) + "]"
+
+
+def makers_shard(sessions_obs) -> str:
+    L = ["From Coq Require Import String List.", "From Verif Require Import lib.MakersSyntax gen.MakersGen model.Makers.",
+         "Import ListNotations.", "Open Scope string_scope."]
+    for k, (sess, ob) in enumerate(sessions_obs):
+        reqs = "; ".join(f"mkReq SV {coq_string(n)} [{'; '.join(coq_string(a) for a in args)}] {coq_string(e)} {_cq_alist(cx or [])}"
+                         for n, args, e, cx in sess)
+        L.append(f"Definition reqs_{k} : list s_request := [{reqs}].")
+        for which in ("make", "remake"):
+            im = "; ".join(f"({coq_string(s0)}, {_cq_alist(g)}, {_cq_alist(fg)})" for s0, g, fg in ob[which])
+            L.append(f"Eval vm_compute in obs_failing (s_session reqs_{k}) [{im}] 0.")
+    return "\n".join(L) + "\n"
+
+
+def makers_correspondence(ctx, res: CorrResult):
+    """case kind 'makers session': the executable session model (vm_compute) against makers.make_function /
+    remake_function on the same sequences of calls"""
+    import random
+    r = random.Random(ctx.rng.getrandbits(64))
+    n = ctx.scale(40, 2000)
+    sessions = [gen_makers_session(r) for _ in range(n)]
+    core.use_repo_in_process()
+    observed = [run_makers_session(s) for s in sessions]
+    calls = sum(len(s) for s in sessions)
+    same_text = sum(1 for s in sessions if len({(a, tuple(b), c) for a, b, c, _ in s}) < len(s))
+    res.distribution["makers_sessions"] = {"sessions": n, "calls": calls, "sessions_with_a_repeated_text": same_text,
+                                           "remake_function_calls": calls}
+    res.evaluations += 2 * calls
+    res.distinct_nontrivial += len({repr(s) for s in sessions if len(s) >= 2})
+    good = []
+    for s, ob in zip(sessions, observed):
+        if "err" in ob:
+            res.disagreements.append(Disagreement("makers session: the implementation raises", {"calls": s}, "a result per call", ob["err"]))
+        else:
+            if not ob["context_unchanged"]:
+                res.disagreements.append(Disagreement("makers session: make_function changes the context dict it is given",
+                                                      {"calls": s}, "unchanged", "changed"))
+            good.append((s, ob))
+    per = 10
+    shards = [good[i:i + per] for i in range(0, len(good), per)]
+    results = core.run_cases(ctx, [makers_shard(sh) for sh in shards], prefix="makers")
+    res.shards = (res.shards or 0) + len(shards)
+    for k, (ok, out) in enumerate(results):
+        if not ok:
+            res.disagreements.append(Disagreement(f"makers shard {k} does not evaluate", None, out[-800:], None))
+            continue
+        bodies = core.parse_eval_lists(out)
+        if len(bodies) != 2 * len(shards[k]):
+            res.disagreements.append(Disagreement(f"makers shard {k}: unparsable output", None, out[-600:], None))
+            continue
+        for i, (s, ob) in enumerate(shards[k]):
+            for j, which in enumerate(("make", "remake")):
+                bad = core.parse_nat_list(bodies[2 * i + j])
+                if bad:
+                    res.disagreements.append(Disagreement(
+                        f"makers session: {which}_function, call {bad[0] + 1} of {len(s)}: text / globals of the function differ "
+                        f"from the model (the function determined by this call's own text and context)",
+                        {"calls": s, "differing_calls": bad}, "model/Makers.v s_session", ob[which][bad[0]] if bad[0] < len(ob[which]) else None))
+
+
 def correspondence(ctx) -> CorrResult:
     import random
     rng = ctx.rng
@@ -1864,6 +2028,7 @@ def correspondence(ctx) -> CorrResult:
                 {"source": s, "context": m["context"], "model": m, "compiled_before_in_the_same_process": before},
                 "Coq model result differs",
                 o.get("err") or {"xtrings": o["xtrings"], "quantities": o["quantities"]}))
+    makers_correspondence(ctx, res)
     return res
 
 
